@@ -1683,7 +1683,200 @@ func c09GenW(r *rand.Rand, tier string, emit func(string)) {
 	}
 }
 
+// ---------- c09L: large structured graphs, oracle only ----------
+//
+// c09L <chi> <ci|-1> <n m u v ...>: families with a chromatic number (and for stars a chromatic index) known by
+// construction and vertices of degree around 256 and 512 whose neighbours largely share one colour (8-bit counter and
+// byte boundaries). Reply "skip" on both sides; everything is decided by the oracle: ChromaticNumber returns chi with a
+// proper colouring using exactly 0..chi-1; IsKColorable(k) for k = chi-1, chi, chi+1 is consistent with a proper
+// colouring < k when true; ChromaticIndex (when ci >= 0) returns ci with a valid array.
+
+func c09RunL(args []string) Result {
+	chi, ci := atoi(args[0]), atoi(args[1])
+	g, _ := parseEG(args[2:])
+	oracle := ""
+	fail := func(f string, a ...interface{}) {
+		if oracle == "" {
+			oracle = fmt.Sprintf(f, a...)
+		}
+	}
+	tags := []string{"large", "nontrivial"}
+	d := g.Dense()
+	lim := 20 * time.Second
+	slow := func(what, e string) bool {
+		if e == "" {
+			return false
+		}
+		if strings.HasPrefix(e, "did not terminate") {
+			tags = append(tags, "slow-skipped")
+		} else {
+			fail("%s %s", what, e)
+		}
+		return true
+	}
+	var got int
+	var col []int
+	if !slow("ChromaticNumber", c09Try(lim, func() { got, col = graph.ChromaticNumber(d) })) {
+		if got != chi {
+			fail("ChromaticNumber=%d but the chromatic number is %d by construction", got, chi)
+		} else if msg := c09ProperColouring(g, col); msg != "" {
+			fail("ChromaticNumber=%d: %s", got, msg)
+		} else if !c09UsesExactly(col, got) {
+			fail("ChromaticNumber=%d but the colouring does not use exactly the colours 0..%d", got, got-1)
+		}
+	}
+	for _, k := range []int{chi - 1, chi, chi + 1} {
+		if k < 0 {
+			continue
+		}
+		var ok bool
+		var c []int
+		kk := k
+		if slow(fmt.Sprintf("IsKColorable(%d)", k), c09Try(lim, func() { ok, c = graph.IsKColorable(d, kk) })) {
+			continue
+		}
+		if ok != (k >= chi) {
+			fail("IsKColorable(%d)=%v but the chromatic number is %d by construction", k, ok, chi)
+		} else if ok {
+			if msg := c09ProperColouring(g, c); msg != "" {
+				fail("IsKColorable(%d)=true: %s", k, msg)
+			}
+			for _, x := range c {
+				if x >= k {
+					fail("IsKColorable(%d)=true but the colouring uses colour %d", k, x)
+					break
+				}
+			}
+		} else if c != nil {
+			fail("IsKColorable(%d)=false with a non-nil colouring", k)
+		}
+	}
+	if ci >= 0 {
+		var gci int
+		var b []byte
+		if !slow("ChromaticIndex", c09Try(lim, func() { gci, b = graph.ChromaticIndex(d) })) {
+			if gci != ci {
+				fail("ChromaticIndex=%d but the chromatic index is %d by construction", gci, ci)
+			} else if msg := c09EdgeColouring(g, c09BytesToInts(b), gci); msg != "" {
+				fail("ChromaticIndex=%d: %s", gci, msg)
+			}
+		}
+		tags = append(tags, "large-ci")
+	}
+	return Result{Out: "skip", Oracle: oracle, Tags: tags}
+}
+
+func c09LReq(r *rand.Rand, chi, ci int, g EG, relabel bool) string {
+	g = g.norm()
+	if relabel {
+		g = g.Relabel(r.Perm(g.N))
+	}
+	return fmt.Sprintf("c09L %d %d %s", chi, ci, g.Tokens())
+}
+
+func c09GenL(r *rand.Rand, tier string, emit func(string)) {
+	both := func(chi, ci int, g EG) {
+		emit(c09LReq(r, chi, ci, g, false))
+		emit(c09LReq(r, chi, -1, g, true))
+	}
+	star := func(l int) EG {
+		g := EG{N: l + 1}
+		for v := 1; v <= l; v++ {
+			g.E = append(g.E, [2]int{0, v})
+		}
+		return g
+	}
+	add := func(g *EG, u, v int) {
+		if u > v {
+			u, v = v, u
+		}
+		g.E = append(g.E, [2]int{u, v})
+	}
+	// stars (chromatic index = number of leaves; 255 must still fit a byte, 256 is the recorded finding -> corpus only)
+	for _, l := range []int{254, 255} {
+		both(2, l, star(l))
+	}
+	for _, l := range []int{256, 257, 258, 510, 511, 512, 513, 514} {
+		both(2, -1, star(l))
+	}
+	sizes := []int{255, 256, 257, 511, 512, 513}
+	for _, s := range sizes {
+		// double star: two adjacent hubs with s leaves each
+		g := EG{N: 2*s + 2}
+		add(&g, 0, 1)
+		for i := 0; i < s; i++ {
+			add(&g, 0, 2+i)
+			add(&g, 1, 2+s+i)
+		}
+		both(2, -1, g)
+		// hub with s pendant vertices, and a triangle / a 5-cycle elsewhere
+		for _, cyc := range []int{3, 5} {
+			g = star(s)
+			base := g.N
+			g.N += cyc
+			for i := 0; i < cyc; i++ {
+				add(&g, base+i, base+(i+1)%cyc)
+			}
+			both(3, -1, g)
+		}
+		// hub + s spokes + one extra edge between two leaves
+		g = star(s)
+		add(&g, 1, 2)
+		both(3, -1, g)
+		// wheel with s rim vertices
+		g = star(s)
+		for i := 0; i < s; i++ {
+			add(&g, 1+i, 1+(i+1)%s)
+		}
+		if s%2 == 0 {
+			both(3, -1, g)
+		} else {
+			both(4, -1, g)
+		}
+		// complete bipartite K_{a,s}
+		for _, a := range []int{2, 3} {
+			g = EG{N: a + s}
+			for u := 0; u < a; u++ {
+				for v := a; v < a+s; v++ {
+					add(&g, u, v)
+				}
+			}
+			both(2, -1, g)
+		}
+		// "late hub", chromatic number 3: triangle k0 k1 k2, s spokes adjacent to k1, k2 and the hub, pendants on k0 —
+		// DSATUR colours all spokes (same colour) before the hub
+		g = EG{N: 4 + s + s + 3}
+		add(&g, 0, 1)
+		add(&g, 0, 2)
+		add(&g, 1, 2)
+		for i := 0; i < s; i++ {
+			add(&g, 4+i, 1)
+			add(&g, 4+i, 2)
+			add(&g, 4+i, 3)
+		}
+		for i := 0; i < s+3; i++ {
+			add(&g, 4+s+i, 0)
+		}
+		both(3, -1, g)
+		emit(c09LReq(r, 3, -1, g, true))
+		emit(c09LReq(r, 3, -1, g, true))
+		// "late hub" tree, chromatic number 2: z with many pendants, y adjacent to z and to s spokes, every spoke
+		// adjacent to the hub — the spokes all get colour 0 before the hub is coloured
+		g = EG{N: 3 + s + s + 2}
+		add(&g, 0, 1) // z - y
+		for i := 0; i < s; i++ {
+			add(&g, 1, 3+i) // y - spoke
+			add(&g, 2, 3+i) // hub - spoke
+		}
+		for i := 0; i < s+2; i++ {
+			add(&g, 0, 3+s+i) // pendants of z
+		}
+		both(2, -1, g)
+	}
+}
+
 func init() {
+	register(&Proto{Name: "c09L", Props: []string{"C09"}, Run: c09RunL, Gen: c09GenL, Timeout: 120 * time.Second})
 	register(&Proto{Name: "c09", Props: []string{"C09"}, Run: c09Run, Gen: c09Gen, Timeout: 60 * time.Second})
 	register(&Proto{Name: "c09w", Props: []string{"C09"}, Run: c09RunW, Gen: c09GenW, Timeout: 60 * time.Second})
 }
